@@ -35,7 +35,8 @@ ASSUMPTIONS = [
 ]
 FLOORS = {
     "quick": {"definitions": 1500, "uses:ACCEPT": 15000, "uses:REJECT": 30000,
-              "trees-compared": 15000, "roundtrips": 15000, "unregistered-probes": 5000},
+              "trees-compared": 15000, "roundtrips": 15000, "unregistered-probes": 5000,
+              "roundtrips-of-accepted-unspecified-uses": 1000},
     "thorough": {"definitions": 8000, "uses:ACCEPT": 150000, "uses:REJECT": 150000,
                  "trees-compared": 150000, "roundtrips": 150000, "unregistered-probes": 16000},
 }
@@ -228,6 +229,8 @@ def param_tokens(p, rng, good=True):
     if t == "number":
         return [rng.choice(NUM)]
     if t == "stringlist":
+        if rng.random() < 0.25:
+            return [rng.choice(STR)]  # string-list = "[" ... "]" / string
         return [b"[", rng.choice(QSTR), b",", rng.choice(QSTR), b"]"]
     return rng.choice([[rng.choice(STR)], [b"[", rng.choice(QSTR), b"]"]])
 
@@ -337,6 +340,30 @@ def evaluate_definition(d, seed, others):
         if len(out["viols"]) < 12:
             out["viols"].append((sig, wit))
 
+    def roundtrip(o, data, wit):
+        """generic-tree isomorphism (C03 oracle) and round trip (C04 oracle)"""
+        lr = rsieve.lex(data)
+        gt = rsieve.parse_generic(lr.toks)
+        nf_src = tuple(lab.norm_generic(x) for x in rsieve.nf_script(gt))
+        nf_got = lab.nf_result(o.result)
+        if nf_src != nf_got:
+            viol({"dir": "tree-not-isomorphic"}, dict(wit, diff=lab.first_diff(nf_src, nf_got)))
+        kind, t1, _ = core.guarded(lab.serialise, 400000, o.result)
+        if kind != "ret":
+            viol({"dir": "tosieve-raised", "exc": t1[0] if kind == "exc" else "hang"}, wit)
+            return None
+        o1 = lab.parse(t1.encode("utf-8"))
+        if o1.verdict() is not True:
+            viol({"dir": "serialisation-rejected",
+                  "error": lab.error_class(o1.error)}, dict(wit, output=t1))
+            return None
+        a = tuple(rsieve.canon_nf(x, spec) for x in lab.nf_result(o.result, decoded=True))
+        b = tuple(rsieve.canon_nf(x, spec) for x in lab.nf_result(o1.result, decoded=True))
+        if a != b:
+            viol({"dir": "roundtrip-tree-changed"},
+                 dict(wit, output=t1, diff=lab.first_diff(a, b)))
+        return t1
+
     uses = valid_uses(d, rng)
     cases = []
     for u in uses:
@@ -354,10 +381,15 @@ def evaluate_definition(d, seed, others):
             v = o.verdict()
             cnt("uses:" + verdict)
             cnt("cases")
-            if verdict == "UNSPEC":
-                continue
             wit = {"definition": d, "script": data.decode("utf-8", "replace"),
                    "interpreter": [verdict, reason], "parser": str(v), "error": o.error}
+            if verdict == "UNSPEC":
+                # nothing is claimed about the verdict; but what IS accepted must still be
+                # recorded faithfully and serialise to something that re-parses to it
+                if v is True:
+                    cnt("roundtrips-of-accepted-unspecified-uses")
+                    roundtrip(o, data, wit)
+                continue
             if verdict == "ACCEPT" and v is not True:
                 viol({"dir": "valid-use-" + ("rejected" if v is False else str(v)),
                       "error": lab.error_class(o.error).replace(d["name"], "CUST")
@@ -400,29 +432,9 @@ def evaluate_definition(d, seed, others):
                         break
                 if set(node.extra_arguments) - set(expect["extra"]):
                     viol({"dir": "tree-extra-parameter"}, wit)
-            # generic-tree isomorphism (C03 oracle) and round trip (C04 oracle)
-            lr = rsieve.lex(data)
-            gt = rsieve.parse_generic(lr.toks)
-            nf_src = tuple(lab.norm_generic(x) for x in rsieve.nf_script(gt))
-            nf_got = lab.nf_result(o.result)
-            if nf_src != nf_got:
-                viol({"dir": "tree-not-isomorphic"}, dict(wit, diff=lab.first_diff(nf_src, nf_got)))
             cnt("roundtrips")
-            kind, t1, _ = core.guarded(lab.serialise, 400000, o.result)
-            if kind != "ret":
-                viol({"dir": "tosieve-raised", "exc": t1[0] if kind == "exc" else "hang"}, wit)
-                continue
-            o1 = lab.parse(t1.encode("utf-8"))
-            if o1.verdict() is not True:
-                viol({"dir": "serialisation-rejected",
-                      "error": lab.error_class(o1.error)}, dict(wit, output=t1))
-                continue
-            a = tuple(rsieve.canon_nf(x, spec) for x in lab.nf_result(o.result, decoded=True))
-            b = tuple(rsieve.canon_nf(x, spec) for x in lab.nf_result(o1.result, decoded=True))
-            if a != b:
-                viol({"dir": "roundtrip-tree-changed"},
-                     dict(wit, output=t1, diff=lab.first_diff(a, b)))
-            if out["sample"] is None:
+            t1 = roundtrip(o, data, wit)
+            if t1 is not None and out["sample"] is None:
                 out["sample"] = {"definition": d, "use": data.decode("utf-8", "replace"),
                                  "serialised": t1}
     # unregistered names remain unknown
